@@ -12,8 +12,8 @@ CHECKS = {
                  'is proved to return the suffix-recursive counts of the alignment, ErrorsSummary.aggregate to add, and '
                  'ErrorsSummary.from_lists (modularly, over the three callee contracts, with inductive lemmas for the symmetry of '
                  'the unit-cost distance and cost = number of unequal pairs) to satisfy nb_subs + nb_inss + nb_dels == nb_errors == '
-                 'distance (320 obligations in all); levenshtein_alignment_substring is covered by the exhaustive bounded '
-                 'run-time contract only.'),
+                 'distance; levenshtein_alignment_substring returns (walk from the best end row) ++ (free trailing symbols) with '
+                 'cost(walk) minus its free leading deletions equal to the optimum over all substrings (about 800 obligations in all).'),
         'note': ('Trusted: pyvc generator and its numpy model table (A1-A5), spec functions validated against brute force on a bounded '
                  'domain, well-founded induction scheme of loop invariants; numpy object-array element equality (A5) checked at run time.'),
     },
